@@ -7,11 +7,26 @@ package rangeplugin
 //@ guard PluginState.Recordsv4 by Mutex|RWMutex
 // concurrency (C16): the lease table is whatever other goroutines left when the lock is acquired;
 // the postconditions describe the critical section (old() = state at acquisition)
-//@ protects PluginState.Mutex|RWMutex: mapc(self.Recordsv4) invariant forall k string: has(self.Recordsv4, k) ==> (self.Recordsv4[k] != nil && allocated(self.Recordsv4[k]))
+//@ protects PluginState.Mutex|RWMutex: mapc(self.Recordsv4) invariant (forall k string: has(self.Recordsv4, k) ==> (self.Recordsv4[k] != nil && allocated(self.Recordsv4[k]))) && rdistinct(self) && dbmirror(self)
+
+// every client has a record object of its own
+//@ pure func rdistinctm(m map[string]*Record) bool = forall k1 string: forall k2 string: (has(m, k1) && has(m, k2) && k1 != k2) ==> m[k1] != m[k2]
+//@ pure func rdistinct(p *PluginState) bool = rdistinctm(p.Recordsv4)
 
 // state invariant of a PluginState (established by setupRange, preserved by Handler4)
 //@ pure func rinv(p *PluginState) bool = p != nil && p.Recordsv4 != nil && p.allocator != nil && p.leasedb != nil && \
-//@     (forall k string: has(p.Recordsv4, k) ==> (p.Recordsv4[k] != nil && allocated(p.Recordsv4[k])))
+//@     (forall k string: has(p.Recordsv4, k) ==> (p.Recordsv4[k] != nil && allocated(p.Recordsv4[k]))) && rdistinct(p)
+
+// Ghost view of the lease database (C03): one row per hardware-address text. saveIPAddress replaces
+// the row of its client when it succeeds; dbfail records that some write has failed (the handler
+// only logs that), after which the database may lag behind the table.
+//@ ghost var dbfail bool
+//@ ghost var dbhas Array[string]bool
+//@ ghost var dbip Array[string]net.IP
+//@ ghost var dbexp Array[string]int
+//@ pure func dbmirrorm(m map[string]*Record) bool = !dbfail ==> (forall k string: (has(m, k) <==> dbhas[k]) && \
+//@     (has(m, k) ==> (dbip[k] == m[k].IP && dbexp[k] == m[k].expires)))
+//@ pure func dbmirror(p *PluginState) bool = dbmirrorm(p.Recordsv4)
 
 // C03: every row written must be loadable by loadRecords (net.ParseMAC of the stored text succeeds)
 //@ func (*PluginState).saveIPAddress
@@ -20,16 +35,24 @@ package rangeplugin
 // C03: the expiry written is not earlier (beyond the one-second resolution) than the end of the
 // lease being promised: latest clock reading + lease time, in whole seconds (see time.spec)
 //@   requires[C03:stored-expiry-covers-the-promise] dur_ok(p.LeaseTime) ==> record.expires >= lease_end_sec(p.LeaseTime)
-//@   modifies nothing
+//@   modifies dbfail, dbhas, dbip, dbexp
+// (what INSERT OR REPLACE does to the table is the database's behaviour: trusted)
+//@   trusted-ensures
+//@   ensures ret0 == nil ==> (dbfail == old(dbfail) && dbhas == upd(old(dbhas), hwstr(mac), true) && dbip == upd(old(dbip), hwstr(mac), record.IP) && dbexp == upd(old(dbexp), hwstr(mac), record.expires))
+//@   ensures ret0 != nil ==> (dbfail && dbhas == old(dbhas) && dbip == old(dbip) && dbexp == old(dbexp))
 
 //@ func loadRecords
 //@   requires db != nil
 //@   modifies everything
 // (the database driver cannot reach the map being built here)
 //@   preserves mapc(records)
-//@   ensures ret1 == nil ==> (ret0 != nil && (forall k string: has(ret0, k) ==> (ret0[k] != nil && allocated(ret0[k]))))
+//@   ensures ret1 == nil ==> (ret0 != nil && (forall k string: has(ret0, k) ==> (ret0[k] != nil && allocated(ret0[k]))) && rdistinctm(ret0))
+// (the ghost view of the database is by definition what the loader reads from it: trusted; that the
+// loader accepts every row the handler wrote is the separate obligation row-is-loadable)
+//@   ensures[trusted:table-is-the-database] ret1 == nil ==> dbmirrorm(ret0)
 //@   loop 1: invariant records != nil && db != nil && rows != nil
 //@   loop 1: invariant forall k string: has(records, k) ==> (records[k] != nil && allocated(records[k]))
+//@   loop 1: invariant rdistinctm(records)
 //@   loop-terminates 1: rows.Next reports the end of a finite result set (database driver, start-up only)
 
 // C02 (restart): start-up re-marks every stored lease in the allocator: one successful allocation
@@ -37,9 +60,13 @@ package rangeplugin
 //@ func setupRange
 //@   modifies everything
 // (opening the database and loading the rows cannot reach the allocator just created)
-//@   preserves p.allocator, alloc_ok
+//@   preserves p.allocator, p.leasedb, alloc_ok
 //@   ensures[C02:start-up-re-marks-every-stored-lease] ret1 == nil ==> (ret0 != nil && alloc_ok - old(alloc_ok) == len(p.Recordsv4))
 //@   loop 1: invariant p.allocator != nil
+//@   loop 1: invariant p.leasedb != nil
+//@   loop 1: invariant rinv(&p)
+//@   loop 1: invariant dbmirror(&p)
+//@   loop 1: invariant !held(mu(&p)) && !rheld(mu(&p))
 //@   loop 1: invariant p.Recordsv4 != nil
 //@   loop 1: invariant alloc_ok - old(alloc_ok) == itercount()
 
@@ -65,4 +92,7 @@ package rangeplugin
 //@   ensures[C03:recorded-expiry-covers-the-promise] (ret0 != nil && dur_ok(p.LeaseTime) && \
 //@       (old(has(p.Recordsv4, hwstr(req.ClientHWAddr))) ==> (0 <= old(p.Recordsv4[hwstr(req.ClientHWAddr)].expires) && old(p.Recordsv4[hwstr(req.ClientHWAddr)].expires) <= 8000000000))) ==> \
 //@       p.Recordsv4[hwstr(req.ClientHWAddr)].expires >= lease_end_sec(p.LeaseTime)
+// C03: the database holds exactly the bindings of the table, with their addresses and expiries
+//@   requires dbmirror(p)
+//@   ensures[C03:database-mirrors-the-bindings] dbmirror(p)
 //@   ensures[C02:configured-lease-time] ret0 != nil ==> has(resp.Options, 51)
